@@ -2390,6 +2390,9 @@ impl Server {
             1
         };
         
+        // A key of another type is an error whatever the count
+        self.storage.zcard(db, key)?;
+        
         // Pop members with atomic operations
         let mut results = Vec::new();
         for _ in 0..count {
@@ -2437,6 +2440,9 @@ impl Server {
         } else {
             1
         };
+        
+        // A key of another type is an error whatever the count
+        self.storage.zcard(db, key)?;
         
         // Pop members with atomic operations
         let mut results = Vec::new();
